@@ -37,12 +37,19 @@ type c19Scenario struct {
 var c19Success = []string{"ok-plain", "ok-empty", "ok-whitespace", "ok-big", "ok-nonnumeric", "ok-float"}
 var c19Failure = []string{"exit-code", "exit-code-output", "exit-code-stderr", "self-kill", "not-executable", "bad-format", "dangling-interpreter",
 	"vanishing", "sleep-past-deadline", "ignore-sigterm", "grandchild-holds-stdout", "grandchild-and-parent-sleep", "print-then-sleep", "missing-file",
-	"path-through-regular-file", "symlink-loop", "name-too-long", "no-shebang-sleeps", "no-shebang-quick", "directory", "endless-output"}
+	"path-through-regular-file", "symlink-loop", "name-too-long", "no-shebang-sleeps", "no-shebang-quick", "directory", "endless-output", "no-shebang-grandchild", "no-shebang-grandchild-sleeps"}
+
+// commands that answer just inside their deadline with output no numeric backend can use: whether the
+// (late, useless) answer or a timeout error comes back is the scheduler's choice and both are clean -
+// but a caller that runs such a command a second time is back only after two timeouts
+var c19Slow = []string{"slow-nonnumeric", "slow-empty", "slow-exit-code"}
 
 func genC19(t *rapid.T) c19Scenario {
 	sc := c19Scenario{TimeoutMs: rapid.SampledFrom([]int{200, 500, 1000, 2000}).Draw(t, "timeoutMs")}
-	if rapid.IntRange(0, 3).Draw(t, "success") == 0 {
+	if k := rapid.IntRange(0, 9).Draw(t, "success"); k <= 1 {
 		sc.Mode = rapid.SampledFrom(c19Success).Draw(t, "mode")
+	} else if k == 2 {
+		sc.Mode = rapid.SampledFrom(c19Slow).Draw(t, "mode")
 	} else {
 		sc.Mode = rapid.SampledFrom(c19Failure).Draw(t, "mode")
 	}
@@ -132,6 +139,19 @@ func c19Script(dir string, sc c19Scenario) (path string, raw string, success boo
 		body += "echo 5\nsleep " + long + "\n"
 	case "endless-output":
 		body += "yes 1234567890\n" // writes as fast as it can until it is killed
+	case "no-shebang-grandchild":
+		body = "(sleep " + long + " &)\necho 1\nexit 0\n" // ENOEXEC, and what a shell would make of it lingers
+	case "no-shebang-grandchild-sleeps":
+		body = "sleep " + long + " &\nsleep " + long + "\n"
+	case "slow-nonnumeric", "slow-empty", "slow-exit-code":
+		body += fmt.Sprintf("sleep %d.%03d\n", (sc.TimeoutMs-100)/1000, (sc.TimeoutMs-100)%1000)
+		switch sc.Mode {
+		case "slow-nonnumeric":
+			body += "echo hello world\n"
+			raw = "hello world\n"
+		case "slow-exit-code":
+			body += fmt.Sprintf("echo not yet >&2\nexit %d\n", sc.Code)
+		}
 	}
 	_ = os.WriteFile(path, []byte(body), mode)
 	_ = os.Chmod(path, mode)
@@ -253,6 +273,15 @@ func runC19(t *testing.T, sc c19Scenario) verdict {
 			// either outcome is fine, but it must be clean
 			if r.Err == nil && sc.Via == "exec" && strings.TrimSpace(r.Out) != "42" {
 				vs = append(vs, sim.Violation{Key: "success-with-wrong-output", Msg: fmt.Sprintf("%s: output %q", desc, r.Out)})
+			}
+		case strings.HasPrefix(sc.Mode, "slow-"):
+			// in time or timed out; a numeric backend has nothing it could return, and so has everybody after a non-zero exit
+			if r.Err == nil && sc.Mode == "slow-exit-code" {
+				vs = append(vs, sim.Violation{Key: "failure-without-error", Msg: fmt.Sprintf("%s: nil error, output %q", desc, clip(r.Out))})
+			} else if r.Err == nil && numericNeeded {
+				vs = append(vs, sim.Violation{Key: "garbage-accepted-as-number", Msg: fmt.Sprintf("%s: value %q", desc, r.Out)})
+			} else if r.Err == nil && sc.Via == "exec" && strings.TrimSpace(r.Out) != strings.TrimSpace(raw) {
+				vs = append(vs, sim.Violation{Key: "success-with-wrong-output", Msg: fmt.Sprintf("%s: raw %q returned %q", desc, clip(raw), clip(r.Out))})
 			}
 		case success && !(numericNeeded && (sc.Mode == "ok-empty" || sc.Mode == "ok-nonnumeric" || sc.Mode == "ok-big" || sc.Mode == "ok-whitespace")):
 			if r.Err != nil {
